@@ -300,6 +300,12 @@ def correspondence(ctx):
     ws = [0.0, 1.0, 0.5, 1e-9, 1 - 1e-9]
     cases, cases2, casesT = [], [], []
     for i, (_, p, q) in enumerate(pairs):
+        # p.q within rounding of 0 but not an exactly representable 0 is the mathematical tie of
+        # C12_slerp_antipode_tie: the sign of a 1e-17 dot product depends on the summation order (BLAS vs the
+        # model's left fold), so the two sides may legitimately take different arcs.  Not a correspondence case.
+        d_ = float(np.dot(np.asarray(p, float), np.asarray(q, float)))
+        if abs(d_) < 1e-13 and not all(float(v) in (0.0, 1.0, -1.0, 0.5, -0.5) for v in list(p) + list(q)):
+            continue
         t = ws[i % len(ws)] if i % 2 == 0 else float(ctx.rng.uniform(0, 1))
         s = float(ctx.rng.uniform(0, 1))
         cases.append({**cm.d(P, p), **cm.d(Q, q), 't': t})
